@@ -909,7 +909,7 @@ pub fn atom(t: &mut Tape) -> E {
     match t.pick(12) {
         0 | 1 | 2 => E::Id(NAMES[t.pick(NAMES.len())].into()),
         3 | 4 => {
-            let nums = [1.0, 0.0, 2.0, 42.0, 0.5, 1e21, 1.5e-7, 123456.789, 1e15, 9007199254740993.0];
+            let nums = [1.0, 0.0, 2.0, 42.0, 0.5, 1e21, 1.5e-7, 123456.789, 1e15, 9007199254740993.0, 1.7976931348623157e308, 1180591620717411303424.0, 5.3911613151624835e-44, 5e-324, 1.2345678901234567e-7, 1.2345678901234568e23, 2.2250738585072014e-308, 0.1 + 0.2];
             E::Num(F(nums[t.pick(nums.len())]))
         }
         5 => E::Str(STR_POOL[t.pick(STR_POOL.len())].into()),
